@@ -164,7 +164,13 @@ class CS(object):
 def mk_cs(clauses, neg=False):
     """normalising constructor; returns W(1) when decidable or small enough"""
     cl = set()
+    flat = []
     for c in clauses:
+        if c is not None and c[1] == "os":
+            flat.extend(c[2])  # a disjunction is 0 iff each of its terms is 0
+        else:
+            flat.append(c)
+    for c in flat:
         if c is not None and not c[0]:
             if c[1]:
                 return wbool(neg)  # a clause that is constantly 1: conjunction false
@@ -1118,7 +1124,8 @@ class Interp(object):
                     return results
                 # symbolic: a panic path and a continuing path
                 info = dict(kind="assert", msg=t["msg"], fn=fr.fn_path, span=t["span"], profile_dependent=prof, definite=False)
-                results.append(Outcome("panic", st.fork(), pc + (b_not(ok),), None, info))
+                if not (self.prune and self.space is not None and not self.feasible(pc + (b_not(ok),))):
+                    results.append(Outcome("panic", st.fork(), pc + (b_not(ok),), None, info))
                 pc = pc + (ok,)
                 bb = t["t"]
             elif k == "call":
@@ -1166,11 +1173,12 @@ class Interp(object):
         feas_t = feas_f = True
         if self.prune and pc and ck in ("bit", "split"):
             # drop a successor that contradicts the conditions already on this path
-            from .harness import pc_status
-            feas_t = pc_status(pc + (c_t,))[0] != "unsat"
-            feas_f = pc_status(pc + (c_f,))[0] != "unsat"
+            feas_t = self.feasible(pc + (c_t,))
+            feas_f = self.feasible(pc + (c_f,))
             if feas_t != feas_f:
                 return self.run(fr, t_tgt if feas_t else f_tgt, stop, st, pc)
+            if not feas_t and self.space is not None:
+                return []   # the path itself is already contradictory (exact on the window universe)
         ro_t = self.run(fr, t_tgt, join, st.fork(), pc + (c_t,))
         ro_f = self.run(fr, f_tgt, join, st, pc + (c_f,))
         stops_t = [o for o in ro_t if o.kind == "stop"]
@@ -1182,7 +1190,7 @@ class Interp(object):
         if join is None:
             return results
         conts = []
-        if ck == "bit" and len(stops_t) == 1 and len(stops_f) == 1:
+        if ck == "bit" and len(stops_t) == 1 and len(stops_f) == 1 and not self.split_all:
             before = _merge_fail[0]
             merged = merge_states(d.bits[0], stops_t[0].state, stops_f[0].state)
             if _merge_fail[0] != before:
@@ -1206,7 +1214,18 @@ class Interp(object):
                     raise Undecided("path budget")
         return results
 
+    space = None   # harness.Space: exact feasibility on a fixed small atom universe
+
+    def feasible(self, pc):
+        if self.space is not None:
+            m = self.space.pc_mask(pc)
+            if m is not None:
+                return m != 0
+        from .harness import pc_status
+        return pc_status(pc)[0] != "unsat"
+
     join_on_top = False
+    split_all = False   # small-window mode: never ite-merge at a join (merged bits would exceed the support bound)
     uf_fallback = False
     call_hook = None
     call_hooks = ()
